@@ -88,7 +88,5 @@ def xorShort (a b : Bytes) : Bytes := (xorB a.dropLast b.dropLast) ++ [0]
 def isClosestShortXor (hashFn : Nat → Bytes) (self : Nat) (others : List Nat) (ciHash : Bytes) : Bool :=
   others.all (fun p => !(cmpB (xorShort ciHash (hashFn self)) (xorShort (hashFn p) ciHash) == .gt))
 
-/-- signed bytes (`int8`) in the comparison -/
-def sbyte (x : Nat) : Int := if x < 128 then (x : Int) else (x : Int) - 256
 
 end CV.C10.Dist
